@@ -145,6 +145,16 @@ def k_send_command(ip, args, kwargs):
                 ok = z3.And(pres == ann, z3.Implies(ann, sym.to_z3str(e[1]) == val.t if e[1] is not None else z3.BoolVal(False)))
                 core.prove(z3.Implies(_truthy(G["starttls_requested"]), ok), "T.SASL-list-is-the-post-handshake-one")
         G["auth_started"] = True
+    # a string argument that cannot be written as a quoted string (CR, LF, NUL) is refused before anything is sent (C08.W1)
+    if cargs:
+        from contracts import wire
+        for a in cargs:
+            if isinstance(a, (bytes, SStr)):
+                t = sym.to_z3str(a)
+                unsendable = z3.And(z3.Not(z3.InRe(t, wire.re_sizelike_prefix())), z3.InRe(t, wire.re_contains_crlfnul()))
+                if core.branch(unsendable):
+                    G["refused"] = True
+                    raise managesieve.Error("CR, LF and NUL cannot be sent in a quoted string")
     G.setdefault("log", []).append(("cmd", name, cargs, authed, conn_auth, G.get("tls", False), vals.get("extralines")))
     # the environment's answer
     if core.branch(sym.fresh_bool("reply_is_bye_or_silence").t):
@@ -512,6 +522,9 @@ def h_status(mname):
     except Exception as e:
         kind = "other"
         note("exception", type(e).__name__)
+    if G.get("refused", False):
+        prove(kind == "Error" and len(G.get("log", [])) == 0, "S3.unsendable-argument-refused-with-Error-nothing-written")
+        return
     log = G["log"]
     prove(len(log) == 1, "S3.exactly-one-command")
     prove(log[0][1] == SCRIPT_METHODS[mname], "S3.intended-verb")
